@@ -352,6 +352,9 @@ pub fn check(c: &Case, stats: &mut Stats) -> CheckResult {
             if *scale_exp != 0 {
                 stats.label(if *scale_exp > 0 { "magnitude:huge" } else { "magnitude:tiny" });
             }
+            if *rows >= 2 && rows == cols && (0..*rows).all(|i| (0..*cols).map(|j| d[i * cols + j]).fold(f32::NEG_INFINITY, f32::max) == 1.0) && (0..*cols).any(|j| (0..*rows).all(|i| d[i * cols + j] != 1.0)) {
+                stats.label("square:every-row-has-a-perfect-match-some-column-has-none");
+            }
             check_matrix(*rows, *cols, &d, s, stats)
         }
         Case::IntMatrix { rows, cols } => check_int_matrix(*rows, *cols, stats),
@@ -382,12 +385,33 @@ fn scale() -> impl Strategy<Value = i8> {
     prop_oneof![10 => Just(0i8), 1 => Just(30i8), 1 => Just(-30i8), 1 => -36i8..=33]
 }
 
+/// One case in eight looks like a normalised similarity: no score above 1, a perfect match (exactly 1.0) in every
+/// row, and perfect matches only in every third column, so that several rows find theirs in the same column and
+/// other columns have none.
+fn normalised(data: &mut [f32], rows: usize, cols: usize, sel: u16) {
+    if sel % 8 != 1 || rows == 0 || cols == 0 {
+        return;
+    }
+    for i in 0..rows {
+        for j in 0..cols {
+            let v = &mut data[i * cols + j];
+            if *v == f32::MAX || *v == f32::MIN || *v >= 1.0 {
+                *v = if j % 3 == 0 { 1.0 } else { 0.5 };
+            }
+        }
+        let j = ((sel as usize / 8 + i * 7) % cols) / 3 * 3;
+        data[i * cols + j] = 1.0;
+    }
+}
+
 fn strategy() -> BoxedStrategy<Case> {
     let matrix = (prop_oneof![8 => (0usize..=8, 0usize..=8), 1 => Just((1usize, 40usize)), 1 => Just((40usize, 1usize))], vec(value(), 64), vec(any::<u16>(), 64), scale())
         .prop_map(|((rows, cols), vals, picks, scale_exp)| {
             // few distinct values per matrix → duplicates / ties among maxima
             let mut data: Vec<f32> = (0..rows * cols).map(|i| vals[pick(picks[i % 64], 1 + (i % 7))]).collect();
             with_negative_infinity(&mut data, rows, cols, picks[63]);
+            normalised(&mut data, rows, cols, picks[62]);
+            let scale_exp = if picks[62] % 8 == 1 { 0 } else { scale_exp };
             Case::Matrix { rows, cols, data, scale_exp }
         });
     let int_matrix = (0usize..=9, 0usize..=9).prop_map(|(rows, cols)| Case::IntMatrix { rows, cols });
@@ -402,6 +426,8 @@ fn strategy() -> BoxedStrategy<Case> {
                 table[k * NT + i] = f32::MIN;
             }
         }
+        normalised(&mut table, NT, NT, sel.rotate_left(5));
+        let scale_exp = if sel.rotate_left(5) % 8 == 1 { 0 } else { scale_exp };
         if symmetric {
             for i in 0..NT {
                 for j in 0..i {
@@ -497,7 +523,7 @@ impl Property for C05 {
         "C05"
     }
     fn rule(&self) -> String {
-        "Generated: (a) raw r x c matrices, r,c in 0..=8 plus 1x40 and 40x1, f32 entries (finite, occasionally +infinity; in one case of four -infinity instead, in half of those a whole row or column / every score of one term) drawn from few values per matrix (ties among maxima), one case in six scaled by 10^e, e in -36..=33 (compared after dividing by the scale), through StandardCombiner::{FunSimAvg,FunSimMax,Bma}::calculate; integer matrices for rows()/cols()/dim()/len() against index arithmetic; (b) on a flat 40-term ontology: sequences of 1-6 pairs of term sets (sizes 0..=8, occasionally 31-40 members) and a user-supplied Similarity that looks pairs up in a generated 40x40 table (asymmetric or symmetrised), through GroupSimilarity::calculate and HpoSet::similarity; (c) the same sequence through one CachedSimilarity per combiner (second visit, transposed pair), every set also compared with itself as the same object on both sides, and term-level (a,b),(b,a),(a,b); (d) fixed-size sweeps on a flat 4200-term ontology with an asymmetric similarity that is a function of the two ids: both sets long, or one long set against a short one in both orders, with sizes across 128 / 256 / 1024 / 2048 / 4096 (quick up to 4097 x 1, thorough up to 2050 x 1500). Oracle: the three definitions evaluated in f64 on M[i][j] = T[A_i][B_j] (ascending ids), tolerance 1e-4; 0 for an empty side; argument-order independence for symmetric tables (1e-6); cached results bit-identical to uncached. evaluations = combiner evaluations. Non-trivial = non-square non-empty matrix whose row-max mean differs from its column-max mean, or a set pair of unequal non-zero sizes; distinct by hash of the case.".into()
+        "Generated: (a) raw r x c matrices, r,c in 0..=8 plus 1x40 and 40x1, f32 entries (finite, occasionally +infinity; in one case of four -infinity instead, in half of those a whole row or column / every score of one term; one case in eight is normalised: no score above 1, exactly 1.0 in every row but only in every third column) drawn from few values per matrix (ties among maxima), one case in six scaled by 10^e, e in -36..=33 (compared after dividing by the scale), through StandardCombiner::{FunSimAvg,FunSimMax,Bma}::calculate; integer matrices for rows()/cols()/dim()/len() against index arithmetic; (b) on a flat 40-term ontology: sequences of 1-6 pairs of term sets (sizes 0..=8, occasionally 31-40 members) and a user-supplied Similarity that looks pairs up in a generated 40x40 table (asymmetric or symmetrised), through GroupSimilarity::calculate and HpoSet::similarity; (c) the same sequence through one CachedSimilarity per combiner (second visit, transposed pair), every set also compared with itself as the same object on both sides, and term-level (a,b),(b,a),(a,b); (d) fixed-size sweeps on a flat 4200-term ontology with an asymmetric similarity that is a function of the two ids: both sets long, or one long set against a short one in both orders, with sizes across 128 / 256 / 1024 / 2048 / 4096 (quick up to 4097 x 1, thorough up to 2050 x 1500). Oracle: the three definitions evaluated in f64 on M[i][j] = T[A_i][B_j] (ascending ids), tolerance 1e-4; 0 for an empty side; argument-order independence for symmetric tables (1e-6); cached results bit-identical to uncached. evaluations = combiner evaluations. Non-trivial = non-square non-empty matrix whose row-max mean differs from its column-max mean, or a set pair of unequal non-zero sizes; distinct by hash of the case.".into()
     }
     fn assumptions(&self) -> Vec<String> {
         vec!["term similarities are finite, +infinity or -infinity, the two infinities never within one matrix (NaN is outside the domain: maxima are taken with '>', and inf - inf has no value)".into(), "f32 sums compared with f64 reference within 1e-4 relative".into()]
@@ -509,7 +535,7 @@ impl Property for C05 {
         }
     }
     fn required_labels(&self, _tier: Tier) -> Vec<&'static str> {
-        vec!["nontrivial", "matrix:rect-row!=col-means", "matrix:empty", "matrix:1x40", "int-matrix", "sets:unequal-sizes", "sets:empty", "sets:more-than-30-members", "sets:symmetric-table", "sets:asymmetric-table", "sets:cache-reused-over-several-pairs", "sets:same-object-asymmetric-table", "magnitude:huge", "magnitude:tiny", "sets:more-than-128-members", "sets:more-than-255-members", "sets:more-than-1024-members-unequal-sizes", "infinite-score", "negative-infinite-score", "row-or-column-of-negative-infinity"]
+        vec!["nontrivial", "matrix:rect-row!=col-means", "matrix:empty", "matrix:1x40", "int-matrix", "sets:unequal-sizes", "sets:empty", "sets:more-than-30-members", "sets:symmetric-table", "sets:asymmetric-table", "sets:cache-reused-over-several-pairs", "sets:same-object-asymmetric-table", "magnitude:huge", "magnitude:tiny", "sets:more-than-128-members", "sets:more-than-255-members", "sets:more-than-1024-members-unequal-sizes", "infinite-score", "negative-infinite-score", "row-or-column-of-negative-infinity", "square:every-row-has-a-perfect-match-some-column-has-none"]
     }
     fn run_generated(&self, _tier: Tier, seed: u64, n: u64, stats: &mut Stats) -> Option<(Value, Failure)> {
         run_typed(strategy(), seed, n, stats, check)
